@@ -48,6 +48,8 @@ def records_case(draw, writer):
         "fields": draw(st.one_of(st.none(), st.lists(st.sampled_from(pool), min_size=1, max_size=4, unique=True))),
         "exclude": draw(st.one_of(st.none(), st.lists(st.sampled_from(pool), min_size=1, max_size=2, unique=True))),
     }
+    # the selection may arrive as a list (API) or as a comma-separated string (URI query / rdump)
+    case["as_string"] = draw(st.booleans())
     if writer == "csv":
         case["term"] = draw(st.sampled_from(TERMS))
     if writer == "line":
@@ -87,6 +89,13 @@ def records_case(draw, writer):
         case.pop("fields")
         case.pop("exclude")
     return case
+
+
+def _sel(case, key):
+    v = case[key]
+    if v and case.get("as_string"):
+        return ",".join(v)
+    return v
 
 
 def selected(rec, fields, exclude):
@@ -156,7 +165,7 @@ def check_csv(case, ctx):
         p = os.path.join(tmp, "o.csv")
 
         def write():
-            w = CsvfileWriter(p, fields=case["fields"], exclude=case["exclude"], lineterminator=term)
+            w = CsvfileWriter(p, fields=_sel(case, "fields"), exclude=_sel(case, "exclude"), lineterminator=term)
             try:
                 for r in records:
                     w.write(r)
@@ -208,7 +217,7 @@ def check_line(case, ctx):
         p = os.path.join(tmp, "o.txt")
 
         def write():
-            w = LineWriter(p, fields=case["fields"], exclude=case["exclude"], verbose=verbose)
+            w = LineWriter(p, fields=_sel(case, "fields"), exclude=_sel(case, "exclude"), verbose=verbose)
             try:
                 for r in records:
                     w.write(r)
